@@ -232,6 +232,25 @@ def corpus(ctx):
         out.append(("C04", json.dumps(dict(decl=d, stmts=[[o, c04.name_of(a) if a else None, c04.name_of(b) if b else None, c]
                                                            for o, a, b, c in stmts]))[:600],
                     lambda k, d=d, stmts=stmts, outfmts=outfmts: c04.build(d, stmts, outfmts, k)[0]))
+    from checks import x08
+    r8 = random.Random(808)
+    for _ in range(300 if ctx.quick else 2500):
+        d, stmts, outs, nregs = x08.rand_program(r8)
+        out.append(("X08", "; ".join(f"{x08.name_of(c) if c[0] != 'R' else v + str(c[1])} := {x08.show(t)}" for c, v, t in stmts)[:600],
+                    lambda k, d=d, stmts=stmts, outs=outs, nregs=nregs: x08.build(d, stmts, outs, nregs, k)))
+    # a value kept in r1-r5 across a helper call inside the same expression (found by X08)
+    V = lambda c, f: ("var", c, f)
+    for label, d, body in [
+            ("H0 = (H0 >> 5) + (A0 * ktime())", dict(arrays=["q", "B"], locals=[], hashes=["Q", "Q"], regs=[6], tmps=[], calls=True),
+             [(("H", 0), None, ("bin", "add", ("bin", "rsh", V(("H", 0), "Q"), ("const", 5)), ("bin", "mul", V(("A", 0), "q"), ("ktime",))))]),
+            ("with stmp: A0 = H0 + A1", dict(arrays=["b", "B"], locals=[], hashes=["I"], regs=[], tmps=["stmp"], calls=True),
+             [(("T", "stmp"), None, ("const", 53)), (("A", 0), None, ("bin", "add", V(("H", 0), "I"), V(("A", 1), "B")))]),
+            ("H0 = H1 + ktime()", dict(arrays=["H", "b"], locals=["Q"], hashes=["q", "q"], regs=[4], tmps=["stmp"], calls=True),
+             [(("R", 4), "r", ("const", 133)), (("T", "stmp"), None, ("const", 186)), (("L", 0), None, ("const", 7)),
+              (("H", 0), None, ("bin", "add", V(("H", 1), "q"), ("ktime",)))])]:
+        nregs = sum(1 for c, v, t in body if c[0] == "R")
+        outs = [(c, f, k) for c, f, k in x08.cells(d) if k in ("stack", "reg", "tmp")]
+        out.append(("X08", label, lambda k, d=d, body=body, outs=outs, nregs=nregs: x08.build(d, body, outs, nregs, k)))
     for label, factory in extra_classes():
         out.append(("extra", label, lambda k, factory=factory: _build_obj(factory, k)))
     for label, builder in library_programs():
